@@ -518,7 +518,7 @@ impl Scanner {
 
         let skipped = numlit.len();
         let int_part = &numlit[..fac_start];
-        let next1 = self.next_char(fac_start);
+        let next1 = self.next_char(skipped);
         if numlit.is_empty() {
             return Err(self.error_at(self.pos + skipped, "invalid radix point"));
         } else if radix != 10 && (int_part.len() == 2) && (fac_part.len() <= 1) {
@@ -539,19 +539,11 @@ impl Scanner {
                 numlit.push(signed);
             }
 
-            self.scan_digits2(
-                numlit.len(),
-                &mut numlit,
-                if radix == 16 {
-                    is_hex_digit
-                } else {
-                    is_decimal_digit
-                },
-            )
+            self.scan_digits2(numlit.len(), &mut numlit, is_decimal_digit)
         }
 
         let exp_part = &numlit[exp_start..];
-        let fac_part = &numlit[fac_start..];
+        let fac_part = &numlit[fac_start..exp_start];
         if !exp_part.is_empty() && !exp_part.ends_with(|c: char| c.is_ascii_digit()) {
             return Err(self.error_at(
                 self.pos + skipped + exp_part.len(),
@@ -581,9 +573,10 @@ impl Scanner {
         }
 
         let char_count = numlit.len();
+        let is_float = !fac_part.is_empty() || !exp_part.is_empty();
         if self.next_char(char_count) == Some('i') {
             Ok((Token::Literal(LitKind::Imag, numlit + "i"), char_count + 1))
-        } else if numlit.find('.').is_some() {
+        } else if is_float {
             Ok((Token::Literal(LitKind::Float, numlit), char_count))
         } else if radix == 10
             && numlit.len() > 1
